@@ -477,6 +477,12 @@ class InterpBase:
                     res = binop("and", res, self.compare("==", self.getattr(a, fname, env, node),
                                                          self.getattr(b, fname, env, node), env, node))
                 return res if o == "==" else un("not", res)
+        if o in ("in", "notin") and b.k == "dictlit":
+            # membership in a dictionary literal whose keys are heap objects / constants: decided by term identity
+            hit = any(k_ == a for k_, _v in b.a[0])
+            if hit or all(k_.k in ("obj", "const") for k_, _v in b.a[0]) and a.k in ("obj", "const"):
+                return C(hit if o == "in" else not hit)
+            return T("op", o, a, b, ty="bool")
         if o in ("in", "notin") and b.k == "obj" and b.ty == "dict":
             return T("op", o, a, b, ty="bool")
         if o in ("in", "notin") and b.k == "gamma":
